@@ -33,11 +33,19 @@ TEXT = ("DelayQueue share (Ekit/Props/C09b.lean, same transition system as C08, 
         "for the mutex, whose holder can move, or sits in a select with no ready arm); a Dequeue parked on its timer is "
         "woken by time alone; the ctx arm is enabled at every blocking point and is effect-free; at quiescence after any "
         "history the lock is free and the queue accepts exactly cap-len more elements, the next one parks. "
+        "Review additions (Ekit/Props/C09bRev.lean): one close enables the signal arm of EVERY call parked on that "
+        "generation (c09_broadcast_wakes_all); a woken Dequeue/Enqueue that is then left alone (lock free, ctx alive, its "
+        "condition holds) reaches its successful return in a fixed number of its own steps without parking again, a timer "
+        "waiter by the passage of time alone (c09_*_completes_solo, c09_timer_dequeue_completes_by_time_alone); a futile "
+        "wake-up re-parks on the current un-closed generation having missed nothing; at quiescence, once expired, solo "
+        "Dequeues deliver ALL elements exactly once, and an empty bounded queue accepts and delivers exactly cap elements "
+        "(c09_drains_at_quiescence, c09_accepts_and_delivers_capacity). "
         "Tied to the code by the regenerated sync skeletons of every function of delay_queue.go and by timed concurrent "
         "histories of the real queue (wake-up within 2 s of the enabling event, no hang, capacity probe after cancellations).")
 
 NOTE = (" DelayQueue share: wall-clock promptness, scheduler fairness and time.Timer accuracy are not expressible; proved is "
-        "enabledness (c09_delay_promptness_partial), not completion; no progress variant (a woken consumer may "
-        "legitimately loop when another consumer took the element). Mutex, channels, select, timers (both asynctimerchan "
+        "enabledness (c09_delay_promptness_partial) and completion of a woken call in the ABSENCE of interference (C09bRev), "
+        "not completion under interference (a woken consumer may legitimately loop when another consumer took the "
+        "element: that needs fairness). Mutex, channels, select, timers (both asynctimerchan "
         "modes) and context are modelled by definition.")
 
